@@ -240,7 +240,7 @@ def gen_plan(seed, cfg):
           "p_cold": rng.choice([0.0, 0.001]), "p_gc": rng.choice([0.0, 0.005, 0.02]),
           "lock_points": False}
     if not threaded and not plan.get("gc_sweep") and not cold and \
-            rng.random() < (0.003 if tier == "thorough" else 0.005):
+            rng.random() < (0.0006 if tier == "thorough" else 0.003):
         ki, kj, pn = rng.choice(_seq_pairs())
         ent = {f"p:{p}": _gen_entries(rng, d) for p, d, f in KERNELS[ki][2]}
         ent.update({f"c:{p}": _gen_entries(rng, d) for p, d, f in KERNELS[kj][2]})
